@@ -374,8 +374,8 @@ fn verif_c11_e2e() {
 //        -> reconstructed histogram of the leader shard `h0,…,h255`
 //         | `err:<Kind>` (first error of any helper/shard, kind only) | `timeout`
 //         | `follower-nonempty:<shard>` | `length-mismatch`
-// Every shard receives >= 30 match keys so that no shard is ever left without rows or pairs
-// (known finding F8).
+// Besides queries with >= 30 match keys per shard there are tiny ones (2-3 reports on 2-3 shards) in
+// which a shard is left without rows after resharding by tag (finding F8, repaired).
 // ---------------------------------------------------------------------------------------------
 pub mod c01_query {
     use std::sync::Arc;
@@ -490,6 +490,10 @@ pub mod c01_query {
         // quick: one single-shard and one two-shard query (>= 30 match keys per shard)
         v.push(case(rng, 1, 32, 0));
         v.push(case(rng, 2, 64, 0));
+        // tiny multi-shard queries: every shard submits at least one report (a query size of zero is
+        // rejected before the protocol), the unique tags decide where they are processed
+        v.push("c01.query 2 0,1 i:1:2,c:1:3".to_string());
+        v.push("c01.query 3 0,1,2 i:7:5,c:7:6,c:8:1".to_string());
         if thorough {
             for i in 0..6u64 {
                 let shards = 1 + (i as usize % 2);
